@@ -12,9 +12,10 @@
              field) ++ padding ++ payload ++ anything (index padding, index, ...)  (CARv2).
    [blocks_ok]: well-formed CIDs, sections within MaxAllowedSectionSize; [hashes_ok hok]: every block
    hashes to its CID; [cids_indexable]: CIDs of at most 2048 bytes (MaxIndexCidSize); sizes < 2^63. *)
-From GoCar Require Import Bytes Varint Cid Header Frame V2Header Scan Index Store Traversal CliCmds.
-From GoCarProofs Require Import StoreInv CliBase CliWalk CliProducers CliConcat CliFilter CliClosure CliTheorems CliGet CliAppend CliIndexFacts CliFull CliCidList CliGetDag CliExamples.
-From GoCarProofs Require FinalIndex.
+From Coq Require Import Sorting.Permutation.
+From GoCar Require Import Bytes Varint Cid Header Frame V2Header Scan Index Store Traversal ExtractFs CliCmds.
+From GoCarProofs Require Import StoreInv CliBase CliWalk CliProducers CliConcat CliFilter CliClosure CliTheorems CliGet CliAppend CliIndexFacts CliFull CliCidList CliGetDag CliPipe CliExamples.
+From GoCarProofs Require FinalIndex ScanTrunc.
 
 (* ---- car list / car root ------------------------------------------------------------------------------ *)
 Theorem C19_list :
@@ -747,3 +748,98 @@ Theorem C19_concat_blocks_v2_refuted :
       verify_car hok hdrdec out = Err EOther.
 Proof. exact concat_v2_refuted. Qed.
 Print Assumptions C19_concat_blocks_v2_refuted.
+
+(* ---- the archive on standard input, through a pipe --------------------------------------------------------- *)
+(* `cat x.car | car list` / `car root` (no file argument), with the fix notes/fixes/C19-stdin-pipe-carv2:
+   whatever the bytes, what the file argument gives; so every container of a valid archive is listed *)
+Theorem C19_list_stdin :
+  forall hok hdrdec, hdrdec pragma_body = Some ([], 2) ->
+  forall file, list_car_stdin true hok hdrdec file = list_car hok hdrdec file.
+Proof. exact list_stdin_fixed. Qed.
+Print Assumptions C19_list_stdin.
+
+Theorem C19_list_root_stdin_valid :
+  forall hok hdrdec, hdrdec pragma_body = Some ([], 2) ->
+  forall hb roots bs file,
+    hdr_ok hdrdec hb roots -> blocks_ok bs -> hashes_ok hok bs -> valid_input hb bs file ->
+    list_car_stdin true hok hdrdec file = (true, map fst bs) /\
+    root_car_stdin true hdrdec file = (true, roots).
+Proof. exact list_stdin_valid. Qed.
+Print Assumptions C19_list_root_stdin_valid.
+
+(* the code before the fix ([false]): "stdin output = file output" held for a CARv1 only; every CARv2,
+   whatever its padding, was refused through a pipe (exit status 1, nothing listed) although the same
+   bytes named as a file are listed (the BlockReader seeks over the CARv2 header on an *os.File; a pipe
+   cannot seek).  `car inspect` and `car detach-index list` through a pipe refuse every input, before
+   and after (their models are the constant refusal). *)
+Theorem C19_list_stdin_unfixed_partial :
+  forall hok hdrdec, hdrdec pragma_body = Some ([], 2) ->
+  forall hb roots bs,
+    hdr_ok hdrdec hb roots -> blocks_ok bs -> hashes_ok hok bs -> blen (payload_hb hb bs) < two63 ->
+    list_car_stdin false hok hdrdec (payload_hb hb bs) = (true, map fst bs) /\
+    root_car_stdin false hdrdec (payload_hb hb bs) = (true, roots).
+Proof. exact list_stdin_v1. Qed.
+Print Assumptions C19_list_stdin_unfixed_partial.
+
+Theorem C19_list_stdin_unfixed_refuted :
+  forall hok hdrdec, hdrdec pragma_body = Some ([], 2) ->
+  forall hb roots bs hi lo dpad ioff trailer,
+    hdr_ok hdrdec hb roots -> blocks_ok bs -> hashes_ok hok bs ->
+    hi < two64 -> lo < two64 -> ioff < two63 ->
+    51 + dpad + blen (payload_hb hb bs) + blen trailer < two63 ->
+    let file := v2file hi lo dpad ioff (payload_hb hb bs) trailer in
+    list_car hok hdrdec file = (true, map fst bs) /\ root_car hdrdec file = (true, roots) /\
+    list_car_stdin false hok hdrdec file = (false, []) /\ root_car_stdin false hdrdec file = (false, []).
+Proof. exact list_stdin_v2_refused. Qed.
+Print Assumptions C19_list_stdin_unfixed_refuted.
+
+(* car list verifies what it lists: a section whose bytes do not hash to its CID ends the listing with
+   an error after the CIDs in front of it -- an archive that `car list` lists to the end is one whose
+   blocks the BlockReader accepted *)
+Theorem C19_list_rejects_corrupt_block :
+  forall hok hdrdec, hdrdec pragma_body = Some ([], 2) ->
+  forall hb roots pre c d rest,
+    hdr_ok hdrdec hb roots -> blocks_ok pre -> hashes_ok hok pre ->
+    blk_ok default_maxs (c, d) -> ScanTrunc.hash_bad hok (c, d) ->
+    let file := ld hb ++ enc_sections pre ++ enc_section c d ++ rest in
+    list_car hok hdrdec file = (false, map fst pre) /\
+    list_car_stdin true hok hdrdec file = (false, map fst pre).
+Proof. exact list_car_corrupt. Qed.
+Print Assumptions C19_list_rejects_corrupt_block.
+
+(* ---- car debug | car compile ------------------------------------------------------------------------------- *)
+(* compile writes the distinct blocks in the iteration order of a Go map: the statement is over EVERY
+   order that is a permutation of the first occurrences.  Each such output is the CARv1 of the roots
+   and exactly those blocks (same roots, same block multiset up to duplicate sections), accepted by the
+   BlockReader, inspect --full, and -- when the input's roots were among its blocks -- verify. *)
+Theorem C19_compile_any_order :
+  forall hok hdrdec, hdrdec pragma_body = Some ([], 2) ->
+  forall roots (bs order : list block),
+    hdr_ok hdrdec (enc_header (Some roots) 1) roots ->
+    blocks_ok bs -> hashes_ok hok bs ->
+    Permutation order (first_occ bs) ->
+    let out := compile_out roots order in
+    br_read_all hok hdrdec default_ropts out = Ok (1, roots, mkscan order EEof) /\
+    (exists st, inspect_car hok hdrdec true out = Ok st /\ is_roots st = roots /\
+                is_count st = N.of_nat (length (first_occ bs))) /\
+    (roots <> [] -> roots_present roots bs = true -> verify_car hok hdrdec out = Ok tt).
+Proof. exact compile_any_order. Qed.
+Print Assumptions C19_compile_any_order.
+
+(* the order the executable model compares in (ascending CID bytes) is one of them *)
+Theorem C19_compile_model_order : forall l : list block, Permutation (sort_blocks l) l.
+Proof. exact sort_blocks_perm. Qed.
+Print Assumptions C19_compile_model_order.
+
+(* ---- car list --unixfs ---------------------------------------------------------------------------------------- *)
+(* over a DAG whose nodes are all present and decodable the listing succeeds and has one path per
+   named entry; a missing node ends it, with the paths up to and including that entry printed *)
+Theorem C19_list_unixfs_whole : forall t prefix, uwhole t = true ->
+  snd (ulist_tree prefix t) = true /\ length (fst (ulist_tree prefix t)) = ucount t.
+Proof. exact ulist_whole. Qed.
+Print Assumptions C19_list_unixfs_whole.
+
+Theorem C19_list_unixfs_stops_at_missing : forall prefix n rest,
+  ulist_tree prefix (UDir ((n, UMissing) :: rest)) = ([ujoin prefix n], false).
+Proof. exact ulist_stops_at_missing. Qed.
+Print Assumptions C19_list_unixfs_stops_at_missing.
